@@ -92,7 +92,7 @@ theorem writeChunk_eq_wrapGo (w : Int) : ∀ (fuel : Nat) (want : Int) (chunk : 
         simp only [hw, if_true]
         rw [ih w _ (by omega) (by omega) hdl]
         conv => rhs; rw [hsplit, wrapGo_append, wrapGo_full w _ want h1 htl]
-        simp only [List.length_take, List.append_assoc, List.drop_drop]
+        simp only [List.length_take, List.append_assoc]
         have : min want.toNat chunk.length = want.toNat := by omega
         simp [this]
 
@@ -121,6 +121,13 @@ theorem wrapGo_want_range (w : Int) (hw : 1 ≤ w) (s : Bytes) (want : Int) (h1 
   have := Int.emod_nonneg (w - want + s.length) (show w ≠ 0 by omega)
   have := Int.emod_lt_of_pos (w - want + s.length) (show 0 < w by omega)
   omega
+
+/-- writing a list of chunks one after the other, as `write_scaffold` does: written bytes and final `want` -/
+def writeAll (w : Int) : Int → List Bytes → Bytes × Int
+  | want, [] => ([], want)
+  | want, c :: cs =>
+    ((writeChunk w (c.length + 1) want c).1 ++ (writeAll w (writeChunk w (c.length + 1) want c).2 cs).1,
+     (writeAll w (writeChunk w (c.length + 1) want c).2 cs).2)
 
 /-! ### closed form of a whole record body -/
 
